@@ -20,7 +20,7 @@ ASSUMPTIONS = [
 ]
 
 PREAMBLE = (r'\newcounter{zzc}\setcounter{zzc}{3}\newcounter{zzs}\newcount\zzr \zzr=2\relax '
-            r'\newdimen\zzd \zzd=3pt\relax \def\zzn{2}\def\zzma{xy}\def\zzmb{xy}\def\zzmc{xz}\newif\iffizz ')
+            r'\newdimen\zzd \zzd=3pt\relax \def\zzneg{-3}\def\zznegd{-2pt}\def\zzn{2}\def\zzma{xy}\def\zzmb{xy}\def\zzmc{xz}\newif\iffizz ')
 
 # boolean tests: (source, truth) ; 'SW' = depends on the switch state
 BOOL = [
@@ -31,13 +31,15 @@ BOOL = [
     (r'\ifdim 1pt<2pt\relax ', True), (r'\ifdim 1in=72.27pt\relax ', True), (r'\ifdim\zzd<1pt\relax ', False),
     (r'\ifdim 2\zzd=6pt\relax ', True), (r'\ifdim 1sp=5sp\relax ', False), (r'\ifdim 0pt=3sp\relax ', False),
     (r'\ifdim 65536sp=1pt\relax ', True), (r'\ifdim -2sp<2sp\relax ', True),
+    (r'\ifnum --1>0\relax ', True), (r'\ifnum -\zzneg>0\relax ', True), (r'\ifdim -\zznegd>1pt\relax ', True),
+    (r'\ifodd -+-3\relax ', True),
     (r'\ifodd 3\relax ', True), (r'\ifodd 4\relax ', False), (r'\ifodd -1\relax ', True), (r'\ifodd\zzr\relax ', False),
     (r'\ifx aa', True), (r'\ifx ab', False), (r'\ifx\zzma\zzmb ', True), (r'\ifx\zzma\zzmc ', False),
     (r'\ifdefined\zzma ', True), (r'\ifdefined\zzundefd ', False),
     (r'\iffizz ', 'SW'),
 ]
 # representative subset used as the *outer* test at the deepest level
-BOOL_SMALL = [0, 1, 3, 8, 12, 14, 19, 23, 24, 27, 28]
+BOOL_SMALL = [0, 1, 3, 8, 12, 14, 18, 23, 27, 28, 31, 32]
 SEL_SRC = {2: r'\zzr', 3: r'\value{zzc}'}     # selectors that can also come from a register / counter
 
 
@@ -84,11 +86,25 @@ def leaves(depth, outer_small=False):
 _SUBS = {}
 
 
-def nodes_for_outer(depth, outer):
+def leaves_small():
+    """depth-1 nodes over the representative test menu"""
+    out = []
+    for ti in BOOL_SMALL:
+        for has_else in (0, 1):
+            out.append(['b', ti, has_else, -1, None])
+    for sel in range(-1, 5):
+        for from_reg in ((0, 1) if sel in SEL_SRC else (0,)):
+            for has_else in (0, 1):
+                out.append(['c', 2, sel, from_reg, has_else, -1, None])
+    return out
+
+
+def nodes_for_outer(depth, outer, inner_small=False):
     """All trees of at most `depth` levels whose root is the test `outer`."""
-    if depth not in _SUBS:
-        _SUBS[depth] = [] if depth == 1 else leaves(depth - 1)
-    subs = _SUBS[depth]
+    key = (depth, inner_small)
+    if key not in _SUBS:
+        _SUBS[key] = [] if depth == 1 else (leaves_small() if (inner_small and depth == 2) else leaves(depth - 1))
+    subs = _SUBS[key]
     out = []
     if outer[0] == 'b':
         ti = outer[1]
@@ -266,14 +282,22 @@ def judge(case):
 
 
 def replay(case):
+    if 'extra' in case:
+        src = PREAMBLE + 'qbeg ' + case['extra'] + 'qend '
+        obs = observe(src)
+        want = 'qbeg' + case['expected_text'] + 'qend'
+        ok = obs.get('text') == want and obs.get('depth') == 1
+        return {'verdict': 'ok' if ok else 'violation', 'expected': want, 'observed': obs, 'detail': 'program: ' + src}
     v, exp, obs, src, ev = judge(case)
     return {'verdict': v, 'expected': exp, 'observed': obs, 'detail': 'program: ' + src}
 
 
 def run_block(block):
+    if block[0] == 'extra':
+        return run_block_extra(block)
     depth, outer, wrapper, setters, sw0, small = block
     rep = core.Report()
-    nodes = nodes_for_outer(depth, outer)
+    nodes = nodes_for_outer(depth, outer, inner_small=(small == 'inner'))
     for node in nodes:
         if depth > 1 and node[-1] is None and _depth(node) < depth:
             pass    # shallower trees are part of the same enumeration (<= depth)
@@ -300,6 +324,29 @@ def _depth(n):
     return 1 if c is None else 1 + _depth(c)
 
 
+EXTRA = [   # (program after the preamble, expected text) -- switches declared inside the branch that uses them
+    (r'\iftrue \newif\ifzzq \ifzzq A\else B\fi C\else D\fi ', 'BC'),
+    (r'\iftrue \newif\ifzzq \zzqtrue \ifzzq A\else B\fi C\else D\fi ', 'AC'),
+    (r'\iffalse \newif\ifzzq \ifzzq A\else B\fi C\else D\fi ', 'D'),
+    (r'\ifcase 1\relax x\or \newif\ifzzq \ifzzq A\else B\fi C\or y\else D\fi ', 'BC'),
+    (r'\ifdefined\ifzzq \else \newif\ifzzq \ifzzq A\else B\fi \fi E', 'BE'),
+    (r'\ifnum 1<2\relax \newif\ifzzq \ifzzq A\fi C\else D\fi ', 'C'),
+]
+
+
+def run_block_extra(block):
+    rep = core.Report()
+    for prog, exp in EXTRA:
+        src = PREAMBLE + 'qbeg ' + prog + 'qend '
+        obs = observe(src)
+        want = 'qbeg' + exp + 'qend'
+        rep.case(key=('extra', prog), nontrivial=True, outcome=obs.get('text'))
+        rep.count('newif_in_branch')
+        if obs.get('text') != want or obs.get('depth') != 1:
+            rep.violation({'extra': prog, 'expected_text': exp}, want, obs, 'program: ' + src)
+    return rep.close_block()
+
+
 def run(tier, seed, rep):
     state.pristine()
     quick = tier == 'quick'
@@ -307,19 +354,20 @@ def run(tier, seed, rep):
     plan = []
     if quick:
         # depth <= 2; every placement, switch setters at top level and in a macro body
-        plan = [(2, 'top', 0, 0, False), (2, 'top', 1, 0, False), (2, 'body', 1, 1, False),
-                (2, 'arg', 0, 0, False), (2, 'group', 0, 1, False)]
+        plan = [(2, 'top', 0, 0, False), (2, 'top', 1, 0, 'inner'), (2, 'body', 1, 1, 'inner'),
+                (2, 'arg', 0, 0, 'inner'), (2, 'group', 0, 1, 'inner')]
     else:
         plan = [(2, w, s, sw0, False) for w in WRAPPERS for s, sw0 in ((0, 0), (0, 1), (1, 0), (1, 1))]
         plan += [(3, w, s, sw0, True) for w, s, sw0 in (('top', 0, 0), ('body', 1, 1))]
     for depth, w, s, sw0, small in plan:
         outers = sorted(set(_outer_id(n) for n in leaves(1, False)), key=repr)
-        if small and depth >= 3:
+        if small is True and depth >= 3:
             outers = sorted(set(_outer_id(n) for n in leaves(3, True) if True), key=repr) if False else \
                 sorted(set([('b', t) for t in BOOL_SMALL] + [('c', 2, sel, fr) for sel in range(-1, 5)
                                                               for fr in ((0, 1) if sel in SEL_SRC else (0,))]), key=repr)
         for o in outers:
             blocks.append((depth, o, w, s, sw0, small))
+    blocks.append(('extra',))
     blocks = core.rotate(blocks, seed)
     core.merge_all(run_block, blocks, rep)
     return {'exhaustive': True,
